@@ -23,7 +23,10 @@ RULE = ('C11.roundtrip: Hypothesis draws one or more CRTF-representable '
         'include). Oracles: one region per region, same class, geometry within '
         'half a unit of fmt in the written unit (semi-axes for ellipses), '
         'include sense, type, label/text, metadata; parse->serialise->parse '
-        'fixed point; the caller\'s regions are not modified. C11.read: '
+        'fixed point; parsed regions that are then EDITED (label / corr / '
+        'range / include / type / colour / line width deleted or replaced) '
+        'serialise as what they now are; the caller\'s regions are not '
+        'modified. C11.read: '
         'abstract CRTF files (global line, every definition incl. box / '
         'centerbox / rotbox / poly / annulus / symbol / text, +/- and ann '
         'prefixes, coord=, degree / h:m:s / d.m.s / hms / pix / rad notations, '
@@ -226,6 +229,7 @@ class RoundTrip(Relation):
             'coordsys': st.sampled_from(SKY_FRAMES),
             'own_frame': st.booleans(),
             'regions': st.lists(region_strategy(), min_size=1, max_size=4),
+            'edits': st.lists(st.integers(0, 9), min_size=1, max_size=4),
         })
 
     def check(self, sp, ctx):
@@ -345,7 +349,69 @@ class RoundTrip(Relation):
             text2, format='crtf'), 'parse')
         ctx.check(text3 == text2, 'fixed point | serialising again changes '
                   'the text')
+        # parsed regions are ordinary regions: edited (entries deleted or
+        # replaced), they serialise as what they NOW are
+        E = list(Regions.parse(text2, format='crtf'))
+        kinds = sp.get('edits') or [0]
+        done = [lab for i, r in enumerate(E)
+                for lab in [_edit_parsed(r, kinds[i % len(kinds)])] if lab]
+        if done:
+            ctx.label(*{'edit:' + d for d in done})
+            textE = Regions(E).serialize(format='crtf', **opts)
+            PE = Regions.parse(textE, format='crtf')
+            ctx.check(len(PE) == len(E), 'edited | count changes')
+            for A, B in zip(E, PE):
+                nm = type(A).__name__
+                ctx.check(type(A) is type(B), f'{nm} | edited: class changes')
+                compare(ctx, f'edited {nm}', A, B, nd, radunit, coordsys)
+                ctx.check(_norm_meta(A.meta) == _norm_meta(B.meta)
+                          and dict(A.visual) == dict(B.visual),
+                          f'{nm} | edited: a parsed region whose metadata was '
+                          'edited does not serialise as what it now is',
+                          f'{_norm_meta(A.meta)} {dict(A.visual)} -> '
+                          f'{_norm_meta(B.meta)} {dict(B.visual)}')
         ctx.nontrivial(nt)
+
+
+def _norm_meta(m):
+    d = dict(m)
+    d['include'] = bool(d.get('include', True))
+    d.setdefault('type', 'reg')
+    return d
+
+
+def _edit_parsed(reg, kind):
+    """Edit a parsed CRTF region in place; returns a label or None."""
+    m, v = reg.meta, reg.visual
+    is_text = type(reg).__name__.startswith('Text')
+    if kind == 1 and 'label' in m and not is_text:
+        del m['label']
+        return 'del label'
+    if kind == 2 and 'corr' in m:
+        del m['corr']
+        return 'del corr'
+    if kind == 3 and 'range' in m:
+        del m['range']
+        return 'del range'
+    if kind == 4 and 'include' in m:
+        del m['include']
+        return 'del include'
+    if kind == 5:
+        m['include'] = not bool(m.get('include', True))
+        return 'flip include'
+    if kind == 6 and not is_text:
+        m['label'] = 'edited later'
+        return 'set label'
+    if kind == 7 and 'color' in v:
+        del v['color']
+        return 'del color'
+    if kind == 8 and 'linewidth' in v:
+        del v['linewidth']
+        return 'del linewidth'
+    if kind == 9:
+        m['type'] = 'reg' if m.get('type') == 'ann' else 'ann'
+        return 'toggle type'
+    return None
 
 
 def _q(x):
